@@ -158,6 +158,70 @@ def exhaustive_small():
             yield {"shape": [d], "comps": [f"I:{i}"]}
 
 
+
+def gen_mixed(rng, ranks=(3,)) -> dict:
+    """Mixed expressions around the Gather/Slice split: rank-0 tensor indices before/after Python ints
+    and slices, at most one 1-D index (possibly after scalars).  Values are mostly in range on every
+    axis, so that a Gather on a wrong axis gives a different tensor rather than an error."""
+    rank = rng.choice(ranks)
+    shape = [rng.choice([2, 3, 4, 5, 2, 3, 4, 1]) for _ in range(rank)]
+    ncomp = rng.choice([rank, rank, rank - 1]) if rank > 2 else rank
+    comps, seen_vec = [], False
+    for ax in range(ncomp):
+        d = shape[ax]
+        r = rng.random()
+        if r < 0.32:
+            c = f"T:{rng.randint(-d, d - 1) if rng.random() < 0.92 else rng.choice([d, -d - 1])}"
+        elif r < 0.54:
+            c = f"I:{rng.randint(0, d - 1) if rng.random() < 0.8 else rng.randint(-d - 1, d)}"
+        elif r < 0.72:
+            c = gen_comp_slice(rng, d)
+        elif r < 0.86 or seen_vec:
+            c = "F"
+        else:
+            n = rng.randint(0, 3)
+            c = "V:" + ",".join(str(rng.randint(-d, d - 1)) for _ in range(n))
+            seen_vec = True
+        comps.append(c)
+    if not any(c[0] in "TV" for c in comps):
+        k = rng.randrange(ncomp)
+        comps[k] = f"T:{rng.randint(-shape[k], shape[k] - 1)}"
+    if rng.random() < 0.02:
+        # a second 1-D index: NumPy zips the two (outside the model, not judged); the plan/result
+        # correspondence with the model is still checked
+        k = rng.randrange(ncomp)
+        comps[k] = "V:" + ",".join(str(rng.randint(0, shape[k] - 1)) for _ in range(rng.randint(1, 2)))
+    return {"shape": shape, "comps": comps}
+
+
+def gen_comp_slice(rng, d: int) -> str:
+    step = rng.choice(["_", "c1", "c2", "c-1", "c-2", "_", "c1"])
+    return f"S:{gen_bound(rng, d, False)}:{gen_bound(rng, d, False)}:{step}"
+
+
+def kind_patterns(rank: int, rng):
+    """Bounded-exhaustive over *kind patterns*: every way to fill `rank` positions with
+    rank-0 tensor / Python int / slice / `:` / 1-D tensor (at most one 1-D), on a tensor whose dims are
+    pairwise different (2,3,4[,5]) with index values valid on every axis."""
+    shape = [2, 3, 4, 5][:rank]
+    for pat in itertools.product("TISFV", repeat=rank):
+        if pat.count("V") > 1:
+            continue
+        comps = []
+        for k in pat:
+            if k == "T":
+                comps.append(f"T:{rng.choice([0, 1, -1, -2])}")
+            elif k == "I":
+                comps.append(f"I:{rng.choice([0, 1, 1, -2])}")
+            elif k == "S":
+                comps.append(rng.choice(["S:c1:_:_", "S:_:c-1:_", "S:_:_:c-1", "S:c0:c2:_", "S:_:_:c2"]))
+            elif k == "F":
+                comps.append("F")
+            else:
+                comps.append(rng.choice(["V:1,0", "V:0", "V:1,1,0", "V:-1,0"]))
+        yield {"shape": shape, "comps": comps}
+
+
 # --------------------------------------------------------------------------- known-finding predicates
 
 
@@ -178,8 +242,11 @@ def pred_d22(case: dict) -> bool:
     return False
 
 
-def pred_axis_shift(case: dict, mode: str) -> bool:
-    """a Gather-translated component executed after a rank-reducing step on a lower axis."""
+def axis_shift_shape(case: dict, mode: str) -> bool:
+    """Evidence only (no verdict depends on it): is this one of the expressions the repaired finding D7
+    was about — a Gather-translated component on an axis above an axis that a Squeeze / rank-0 index
+    removes?  Before /repo commit e7769b9 these returned a different tensor; they are judged like every
+    other case now, and the count shows that the generator keeps producing them."""
     comps = case["comps"]
     kinds = [comp_kind(c) for c in comps]
     scalars = [i for i, k in enumerate(kinds) if k == "scalar"]
@@ -187,25 +254,18 @@ def pred_axis_shift(case: dict, mode: str) -> bool:
     if mode == "graph":
         nons = [i for i, k in enumerate(kinds) if k == "nonscalar"]
         use_slice = bool(sliced) or len(scalars) > 1
-        reducers = list(scalars) if use_slice else []
-        order = nons + ([] if use_slice else scalars)
+        removed = list(scalars) if use_slice else []
+        gathered = nons + ([] if use_slice else scalars)
+        removed += [g for g in gathered if comps[g][0] in "IT"]
     else:
-        tsc = [i for i, c in enumerate(comps) if c[0] in "IT"]
-        order = [i for i, c in enumerate(comps) if c[0] == "V"]
-        reducers = list(tsc)
-    for g in order:
-        if any(r < g for r in reducers):
-            return True
-        if comps[g][0] in "IT":
-            reducers.append(g)
-    return False
+        removed = [i for i, c in enumerate(comps) if c[0] in "IT"]
+        gathered = [i for i, c in enumerate(comps) if c[0] == "V"]
+    return any(r < g for g in gathered for r in removed)
 
 
 def classify(case: dict, mode: str) -> str | None:
     if pred_d22(case):
         return "D22"
-    if pred_axis_shift(case, mode):
-        return "D7"
     return None
 
 
@@ -365,6 +425,10 @@ def check_cases(run: core.Run, drv: core.Driver, cases, stats: Counter, do_graph
                 problems.append((c, "numpy", "tie", f"model numpyIndex={m_numpy} real numpy={np_res}"))
         else:
             stats["numpy_unmodelled"] += 1
+            nvec = sum(1 for ck in c["comps"] if ck.startswith("V:"))
+            stats["unmodelled_two_or_more_1d_indices" if nvec > 1 else "unmodelled_broadcast_axis_moves_to_front"] += 1
+        if any(ck[0] in "TV" for ck in c["comps"]) and sum(1 for ck in c["comps"] if comp_kind(ck) != "skip") > 1:
+            stats["mixed_tensor_index_cases"] += 1
         for mode in (["graph"] if do_graph else []) + (["eager"] if do_eager else []):
             mplan, mres = (m_graph if mode == "graph" else m_eager).split(" | ")
             if mode == "graph":
@@ -379,6 +443,10 @@ def check_cases(run: core.Run, drv: core.Driver, cases, stats: Counter, do_graph
             stats[f"{mode}_cases"] += 1
             if ires.startswith("ERR"):
                 stats[f"{mode}_err"] += 1
+            if axis_shift_shape(c, mode):
+                stats[f"{mode}_axis_shift_shape"] += 1
+                if not ires.startswith("ERR") and np_res != "ERR" and m_numpy != "ERR:unmodelled":
+                    stats[f"{mode}_axis_shift_shape_judged_tensor"] += 1
             # ---- tie: model of the front end == front end
             if mplan.startswith("ERR"):
                 tie_ok = ires.startswith("ERR")
@@ -415,8 +483,9 @@ def main(run: core.Run) -> None:
         "A-op: ONNX Slice/Squeeze/Gather follow the operator specification (transcribed in OV.Model.Index); "
         "onnxruntime CPU is the runtime the results are observed on",
         "NumPy basic indexing = CPython PySlice_AdjustIndices (transcribed); validated against real NumPy on every case",
-        "tensor-valued indices: rank-0 and at most one 1-D index per expression; NumPy's axis transposition for "
-        "separated advanced indices and multi-vector (zip) indexing are outside the model and excluded from generation",
+        "tensor-valued indices: rank-0 and at most one 1-D index per expression are judged; NumPy's axis transposition "
+        "for separated advanced indices (X[0, :, I]) and multi-vector (zip) indexing are outside the model: such cases "
+        "are generated (few), tied to the model, counted in the evidence (`unmodelled_*`) and not judged against NumPy",
     ]
     audit = run.prove(PROP_MODULES)
     drv = core.Driver("C11")
@@ -468,6 +537,13 @@ def main(run: core.Run) -> None:
         batch(ex)
     batch([gen_case(run.rng) for _ in range(n_graph)])
     batch([gen_case(run.rng) for _ in range(n_eager_extra)], do_graph=False)
+    # the Gather/Slice split with tensor-valued indices (the family of the repaired finding D7)
+    pats = list(kind_patterns(3, run.rng)) + (list(kind_patterns(4, run.rng)) if run.tier == "thorough" else [])
+    batch(pats)
+    stats["kind_patterns"] = len(pats)
+    mixed_ranks = (3,) if run.tier == "quick" else (3, 3, 4, 2)
+    batch([gen_mixed(run.rng, mixed_ranks) for _ in range(run.size(250, 3000))])
+    batch([gen_mixed(run.rng, mixed_ranks) for _ in range(run.size(500, 8000))], do_graph=False)
 
     for c in list(seen)[:6]:
         run.sample(c)
@@ -489,7 +565,6 @@ def main(run: core.Run) -> None:
             else:
                 prop_failures.append((c, mode, detail))
     stats["known_D22"] = known_counts["D22"]
-    stats["known_D7"] = known_counts["D7"]
 
     if prop_failures:
         prop_failures.sort(key=lambda p: (len(p[0]["comps"]), sum(p[0]["shape"]), len(str(p[0]))))
@@ -526,7 +601,19 @@ def main(run: core.Run) -> None:
         distribution=dict(stats),
         exhaustive=False,
         explanation="rank-1 stream (d<=4, all constant slices with bounds in [-d-2,d+2], steps ±1,±2) is enumerated "
-        + ("completely" if run.tier == "thorough" else "by sample") + "; higher ranks are seeded random",
+        + ("completely" if run.tier == "thorough" else "by sample") + "; all kind patterns {rank-0 tensor, int, slice, ':', "
+        "1-D tensor (at most one)}^rank on a 2x3x4" + ("(x5)" if run.tier == "thorough" else "") + " tensor are enumerated "
+        "completely (values sampled); other higher-rank cases are seeded random",
+        unmodelled_not_judged={
+            "broadcast_axis_moves_to_front": stats["unmodelled_broadcast_axis_moves_to_front"],
+            "two_or_more_1d_indices": stats["unmodelled_two_or_more_1d_indices"],
+        },
+        former_d7_family={
+            "graph_cases": stats["graph_axis_shift_shape"],
+            "graph_returning_a_tensor_and_judged": stats["graph_axis_shift_shape_judged_tensor"],
+            "eager_cases": stats["eager_axis_shift_shape"],
+            "eager_returning_a_tensor_and_judged": stats["eager_axis_shift_shape_judged_tensor"],
+        },
     )
     if stats["graph_cases"] and stats["graph_refused"] > 0.3 * stats["graph_cases"]:
         raise core.Infra("generator degenerated: >30% of programs refused")
